@@ -102,6 +102,35 @@ func boolTerm(e *Exec, b bool) *sym.Term { return e.tb.Bool(b) }
 
 // formatDecimal renders an integer term in base 10, forking on the digit count.
 func (e *Exec) formatDecimal(t *sym.Term, signed bool) []*sym.Term {
+	out := e.formatDecimal1(t, signed)
+	if !t.IsConst() && len(out) > 0 {
+		if e.decOrigin == nil {
+			e.decOrigin = map[**sym.Term]decInfo{}
+		}
+		e.decOrigin[&out[0]] = decInfo{n: len(out), val: t, signed: signed}
+	}
+	return out
+}
+
+type decInfo struct {
+	n      int
+	val    *sym.Term
+	signed bool
+}
+
+// decimalOrigin returns the integer a string was rendered from by the %d model (whole string only).
+func (e *Exec) decimalOrigin(s []*sym.Term) (decInfo, bool) {
+	if len(s) == 0 || e.decOrigin == nil {
+		return decInfo{}, false
+	}
+	d, ok := e.decOrigin[&s[0]]
+	if ok && d.n == len(s) {
+		return d, true
+	}
+	return decInfo{}, false
+}
+
+func (e *Exec) formatDecimal1(t *sym.Term, signed bool) []*sym.Term {
 	tb := e.tb
 	if t.IsConst() {
 		var s string
@@ -202,11 +231,13 @@ func (e *Exec) formatHexInt(t *sym.Term, minWidth int, zeroPad, upper bool) []*s
 // sprintf models fmt.Sprintf for the verbs the library uses.
 func (e *Exec) sprintf(format string, args []Value, argTypes []types.Type, lossy bool) Str {
 	var out []*sym.Term
+	var soleDec *decInfo
 	ai := 0
 	for i := 0; i < len(format); i++ {
 		c := format[i]
 		if c != '%' {
 			out = append(out, e.byteConst(c))
+			soleDec = nil
 			continue
 		}
 		i++
@@ -276,7 +307,17 @@ func (e *Exec) sprintf(format string, args []Value, argTypes []types.Type, lossy
 				piece = append(pad, piece...)
 			}
 		}
+		if len(out) == 0 && len(piece) > 0 {
+			if d, ok := e.decimalOrigin(piece); ok {
+				soleDec = &d
+			}
+		} else {
+			soleDec = nil
+		}
 		out = append(out, piece...)
+	}
+	if soleDec != nil && len(out) == soleDec.n {
+		e.decOrigin[&out[0]] = *soleDec
 	}
 	return Str{out}
 }
